@@ -17,6 +17,16 @@ Readings of the documents where they are silent (kept identical in the Lean `pol
  R2  with `allow_fallback` unset and an optional lookup a wrap `[provide]` entry is still the fallback
      when its subproject is already part of the build;
  R3  names are tried in order; for each, an override first, then a dependency cached from a previous run.
+ R4  overrides and remembered results are per identifier: name + `static` flavour + the other identifying keywords of
+     dependency() (harvested from `get_dep_identifier` on every run; `method` does not identify an override).
+     meson.override_dependency(static: s) in a project with default_library dl answers a lookup with `static: σ` iff
+     σ is absent, or s = σ, or s is absent and dl is σ's flavour or `both` (docs/yaml/builtins/meson.yaml: "if not
+     specified it is assumed dep_object follows default_library").
+The worlds are *built through the real registration API*: every override of a world is a
+`MesonMain.override_dependency_method` call (main project, configured subprojects, and subprojects configured by the
+lookup — with the default_library a `static:` lookup forces on them); the resulting table is compared with the
+documented rule (oracle) and with the Lean model `Register.overrideDependency` (correspondence). Each lookup is then
+compared with the Lean `lookup`/`policy` on the slice of the real tables at the lookup's identifier flavour.
 """
 from __future__ import annotations
 
@@ -56,9 +66,12 @@ PINS = [
     'mesonbuild.wrap.wrap:Resolver.find_dep_provider',
     'mesonbuild.wrap.wrap:Resolver.get_varname',
     'mesonbuild.wrap:WrapMode',
+    'mesonbuild.interpreter.mesonmain:MesonMain.override_dependency_method',
+    'mesonbuild.interpreter.mesonmain:MesonMain._override_dependency_impl',
+    'mesonbuild.dependencies.detect:get_dep_identifier',
 ]
 TRUSTED = [
-    'stubs of find_external_dependency / Interpreter.do_subproject / Resolver.find_dep_provider+get_varname in harness/c10_dep.py '
+    'stubs of find_external_dependency / Interpreter.do_subproject (its build file = a list of real meson.override_dependency calls) / Resolver.find_dep_provider+get_varname in harness/c10_dep.py '
     '(the Lean world mirrors these stubs); end-to-end runs in the thorough tier exercise the real ones',
     'instrumented externals of wrap.py (urlopen, open-for-hash, os.rename, os.mkdir, shutil.unpack_archive, shutil.copy2, Popen_safe) '
     'in harness/c10_wrap.py; archive contents abstracted to (sha, unpacks, creates dir, has build file)',
@@ -91,25 +104,31 @@ FFF = [[], ['foo'], ['foosub']]
 WANTED = [[], ['>=2.0']]
 
 
-def cell(sysv, fbk, sst, sc, pre, wm, fff, wanted, req, allow) -> T.Optional[T.Tuple[dict, dict]]:
-    w = {'wrap_mode': wm, 'fff': list(fff), 'overrides': json.loads(json.dumps(pre[0])), 'cache': dict(pre[1]),
-         'system': {} if sysv is None else {'foo': sysv}, 'provides': {}, 'subprojects': {}}
+OPST = [None, True, False]            # `static:` keyword of the override_dependency calls of the cell
+DLIB = ['shared', 'static', 'both']   # default_library of the project that registers
+RST = [None, True, False]             # `static:` keyword of the lookup
+
+
+def cell(sysv, fbk, sst, sc, pre, wm, fff, wanted, req, allow, opst, dl, rst) -> T.Optional[T.Tuple[dict, dict]]:
+    fw = {'wrap_mode': wm, 'fff': list(fff), 'main_dl': dl, 'ops': [], 'cache': dict(pre[1]),
+          'system': {} if sysv is None else {'foo': sysv}, 'provides': {}, 'subprojects': {}}
+    for n, (d, _explicit) in pre[0].items():
+        fw['ops'].append({'name': n, 'dep': d, 'static': opst, 'native': False})
     if fbk == 'p0':
-        w['provides']['foo'] = ['foosub', None]
+        fw['provides']['foo'] = ['foosub', None]
     if fbk in ('pv', 'x1pv'):
-        w['provides']['foo'] = ['foosub', 'foo_dep']
+        fw['provides']['foo'] = ['foosub', 'foo_dep']
     st, cf = sst
-    w['subprojects']['foosub'] = {'state': st, 'configure': cf, 'overrides': dict(sc[0]), 'vars': dict(sc[1])}
-    if st == 'found':
-        if any(n in w['overrides'] for n in sc[0]):
-            return None
-        for n, d in sc[0].items():
-            w['overrides'][n] = [d, True]
-    r = {'names': ['foo'], 'wanted': list(wanted), 'required': req, 'allow_fallback': allow, 'fallback': FB_OF[fbk]}
-    return w, r
+    sub_ops = [{'name': n, 'dep': d, 'static': opst, 'native': False} for n, d in sc[0].items()]
+    fw['subprojects']['foosub'] = {'state': st, 'configure': cf, 'dl': dl, 'ops': sub_ops, 'vars': dict(sc[1])}
+    if st == 'found' and D.register_ops(D.register_ops({}, fw['ops'], dl), sub_ops, dl) is None:
+        return None
+    r = {'names': ['foo'], 'wanted': list(wanted), 'required': req, 'allow_fallback': allow, 'fallback': FB_OF[fbk],
+         'static': rst, 'extra': {}}
+    return fw, r
 
 
-DIMS = [SYSV, FBK, SST, SUBC, PRE, D.WRAP_MODES, FFF, WANTED, [True, False], [None, True, False]]
+DIMS = [SYSV, FBK, SST, SUBC, PRE, D.WRAP_MODES, FFF, WANTED, [True, False], [None, True, False], OPST, DLIB, RST]
 
 
 def n_cells() -> int:
@@ -138,36 +157,46 @@ def rdep(rng, tag):
     return [f'{tag}{rng.randint(0, 3)}@{v}' if f else f'{tag}nf{rng.randint(0, 1)}', f, v]
 
 
+def rop(rng, name, tag) -> dict:
+    return {'name': name, 'dep': rdep(rng, tag), 'static': rng.choice([None, None, True, False]), 'native': rng.random() < 0.1}
+
+
 def rworld(rng) -> dict:
-    w = {'wrap_mode': rng.choice(D.WRAP_MODES), 'fff': rng.choice([[], [], ['foo'], ['foosub'], ['bar', 'foo'], ['barsub']]),
-         'overrides': {}, 'cache': {}, 'system': {}, 'provides': {}, 'subprojects': {}}
+    fw = {'wrap_mode': rng.choice(D.WRAP_MODES), 'fff': rng.choice([[], [], ['foo'], ['foosub'], ['bar', 'foo'], ['barsub']]),
+          'main_dl': rng.choice(DLIB), 'ops': [], 'cache': {}, 'system': {}, 'provides': {}, 'subprojects': {}}
+    table: dict = {}
     for n in NAMES:
         if rng.random() < 0.4:
-            w['system'][n] = rng.choice(VERS[:2])
+            fw['system'][n] = rng.choice(VERS[:2])
         if rng.random() < 0.15:
             v = rng.choice(VERS[:2])
-            w['cache'][n] = [f'sys:{n}@{v}', True, v]
-        if rng.random() < 0.15:
-            w['overrides'][n] = [rdep(rng, 'o'), rng.random() < 0.7]
+            fw['cache'][n] = [f'sys:{n}@{v}', True, v]
+        for _ in range(rng.choice([0, 0, 0, 1, 1, 2])):
+            op = rop(rng, n, 'o')
+            t = D.register_ops(table, [op], fw['main_dl'])
+            if t is not None:
+                table = t
+                fw['ops'].append(op)
         if rng.random() < 0.5:
-            w['provides'][n] = [rng.choice(SPS), rng.choice([None, 'foo_dep', 'bar_dep'])]
+            fw['provides'][n] = [rng.choice(SPS), rng.choice([None, 'foo_dep', 'bar_dep'])]
     for sp in SPS:
         if rng.random() < 0.75:
             st = rng.choice(['no', 'no', 'found', 'disabled'])
-            s = {'state': st, 'configure': rng.choice(['ok', 'ok', 'fail']), 'overrides': {}, 'vars': {}}
+            s = {'state': st, 'configure': rng.choice(['ok', 'ok', 'fail']), 'dl': rng.choice(DLIB), 'ops': [], 'vars': {}}
             for n in NAMES:
-                if rng.random() < 0.35:
-                    s['overrides'][n] = rdep(rng, 's' + sp[0])
+                for _ in range(rng.choice([0, 0, 1, 1, 2])):
+                    s['ops'].append(rop(rng, n, 's' + sp[0]))
             for v in ['foo_dep', 'bar_dep']:
                 if rng.random() < 0.5:
                     s['vars'][v] = rdep(rng, 'v' + sp[0]) if rng.random() < 0.85 else 'notdep'
             if st == 'found':
-                if any(n in w['overrides'] for n in s['overrides']):
-                    s['overrides'] = {}
-                for n, d in s['overrides'].items():
-                    w['overrides'][n] = [d, True]
-            w['subprojects'][sp] = s
-    return w
+                t = D.register_ops(table, s['ops'], s['dl'])
+                if t is None:
+                    s['ops'] = []
+                else:
+                    table = t
+            fw['subprojects'][sp] = s
+    return fw
 
 
 def rreq(rng) -> dict:
@@ -179,8 +208,14 @@ def rreq(rng) -> dict:
     else:   # malformed stream
         names = rng.choice([[], ['foo', 'foo'], ['fo=o'], [''], ['foo>1'], ['bar', '']])
     fb = rng.choice([None, None, None, ['foosub'], ['foosub', 'foo_dep'], ['foo'], ['barsub', 'bar_dep'], [], ['a', 'b', 'c'], ['nosuch']])
+    extra = {}
+    if rng.random() < 0.15:
+        kws = [k for k in D.ident_keywords() if k not in ('static', '__convertors__')]
+        kw = rng.choice(kws)
+        extra[kw] = D.ident_keywords()[kw]
     return {'names': names, 'wanted': rng.choice([[], [], ['>=2.0'], ['<2.0'], ['>=1.0', '<2.0']]), 'required': rng.random() < 0.5,
-            'allow_fallback': rng.choice([None, None, True, False]) if fb is None or rng.random() < 0.1 else None, 'fallback': fb}
+            'allow_fallback': rng.choice([None, None, True, False]) if fb is None or rng.random() < 0.1 else None, 'fallback': fb,
+            'static': rng.choice([None, None, True, False]), 'extra': extra}
 
 
 def rseq(rng) -> T.Tuple[dict, T.List[dict]]:
@@ -215,34 +250,62 @@ def designation(w: dict, r: dict) -> T.Tuple[bool, T.Optional[str]]:
     return forced, sp
 
 
-def eval_seq(item: T.Tuple[dict, T.List[dict]]) -> T.Tuple[str, T.List[T.Tuple[str, str, int]], T.List[str]]:
-    """run one lookup sequence on the implementation; -> (canonical result, oracle hits, outcome tags)"""
-    w, reqs = item
-    s = D.Session(w)
-    p = D.Policy(w)
-    res, hits, tags, outs, pol = [], [], [], [], []
+def eval_seq(item: T.Tuple[dict, T.List[dict]]):
+    """run one configuration on the implementation: the override_dependency calls of the world through the real
+    MesonMain.override_dependency_method, then the lookups.
+    -> (per-step canonical results, oracle hits, outcome tags, per-step policy results, per-step model lines)"""
+    fw, reqs = item
+    s = D.Session(fw)
+    p = D.FullPolicy(fw)
+    res, hits, tags, outs, pol, lines = [], [], [], [], [], []
+    st0 = s.state()
+    if s.setup_errors:
+        hits.append(('override-registration', 'meson.override_dependency() refused a fresh name: ' + '; '.join(s.setup_errors), -1))
+    elif D.canon_state(st0) != D.canon_state(p.state):
+        missing = sorted(set(p.state['table']) - set(st0['table']))
+        extra = sorted(set(st0['table']) - set(p.state['table']))
+        hits.append(('override-registration',
+                     'after the meson.override_dependency() calls the override table is not what "follows default_library" '
+                     f'prescribes: missing {missing} unexpected {extra}', -1))
     for i, r in enumerate(reqs):
-        wb = s.snapshot()
+        before = s.state()
+        wb = D.make_slice(fw, before, r)
         out, eff = s.lookup(r)
+        after = s.state()
+        wa = D.make_slice(fw, after, r)
+        pt = dict(p.state['table'])
         pout = p.decide(r)
-        pol.append(D.canon_out(pout) + ('' if pout == 'error' else '~' + D.canon_world_enc(p.w)))
+        sp = D.Policy(wb)
+        spo = sp.decide(r)
+        pol.append(D.canon_out(spo) + ('' if spo == 'error' else '~' + D.canon_world_enc(sp.w)))
+        lines.append(D.line_seq(wb, [r]))
         cls = 'error' if out.startswith('error') else out
         outs.append(cls)
         tags.append(out.split(':')[0] if not out.startswith('error') else out)
-        res.append(D.canon_out(out) + '~' + D.canon_effects(eff) + '~' + D.canon_world_enc(s.snapshot()))
+        res.append(D.canon_out(out) + '~' + D.canon_effects(eff) + '~' + D.canon_world_enc(wa))
         if cls != pout:
             hits.append(('policy', f'dependency() gave {out}, the documented policy prescribes {pout}', i))
-        elif cls != 'error' and D.canon_world(s.snapshot()) != D.canon_world(p.w):
+        elif cls != 'error' and D.canon_state(after) != D.canon_state(p.state):
             hits.append(('policy-state', 'overrides/cache/subprojects after the lookup differ from what the policy prescribes', i))
         valid = not out.startswith('error:Inv') and len(set(r['names'])) == len(r['names']) and all(r['names'])
         if valid:
-            forced, sp = designation(wb, r)
-            if forced and sp and any(e.startswith('system:') for e in eff):
+            forced, spn = designation(wb, r)
+            if forced and spn and any(e.startswith('system:') for e in eff):
                 hits.append(('forced-consults-system', 'fallback is forced but the system was consulted: ' + ','.join(eff), i))
-            if forced and sp and out.startswith('found:sys:') and not any(r_n in wb['overrides'] for r_n in r['names']):
+            if forced and spn and out.startswith('found:sys:') and not any(r_n in wb['overrides'] for r_n in r['names']):
                 hits.append(('forced-returns-system', 'fallback is forced but a system dependency was returned', i))
             if wb['wrap_mode'] == 'nofallback' and not forced and any(e.startswith('configure:') for e in eff):
                 hits.append(('nofallback-configures', 'wrap_mode=nofallback but a subproject was configured: ' + ','.join(eff), i))
+            # an overridden dependency wins: the first name is overridden (for this static flavour, by the documented
+            # registration rule) with a found dependency that satisfies the constraint
+            if r['names'] and args_ok(r):
+                ov = pt.get(D.tkey(False, r['names'][0], D.flavour(r.get('static'), r.get('extra') or {}, False)))
+                if ov and ov[0][1] and D.vsat(ov[0][2], r['wanted']):
+                    if out != 'found:' + ov[0][0]:
+                        hits.append(('override-does-not-win', f'{r["names"][0]!r} is overridden with {ov[0][0]} for this lookup '
+                                     f'(static: {r.get("static")}) but dependency() gave {out}', i))
+                    elif any(e.startswith(('system:', 'configure:')) for e in eff):
+                        hits.append(('override-does-not-win', 'the name is overridden but the lookup went on: ' + ','.join(eff), i))
         for j in range(i):
             if reqs[j] == r:
                 if outs[j].startswith('found:') and cls != outs[j]:
@@ -251,7 +314,21 @@ def eval_seq(item: T.Tuple[dict, T.List[dict]]) -> T.Tuple[str, T.List[T.Tuple[s
                     hits.append(('repeat-differs', f'immediately repeated lookup returned {outs[j]} then {cls}', i))
         if cls == 'error':
             break
-    return '#'.join(res), hits, tags, '#'.join(pol)
+    return res, hits, tags, pol, lines
+
+
+def norm_sub_error(canon: str) -> str:
+    """an exception out of a subproject that is being configured is whatever that subproject raised (the stub of
+    do_subproject raises InterpreterException for a refused override, its own class otherwise): one class"""
+    parts = canon.split('~')
+    if parts[0] == 'error:InterpreterException' and len(parts) > 1 and parts[1].split(',')[-1].startswith('configure:'):
+        parts[0] = 'error:SubprojectConfigureError'
+    return '~'.join(parts)
+
+
+def args_ok(r: dict) -> bool:
+    fb, allow = r['fallback'], r['allow_fallback']
+    return not (fb is not None and (allow is not None or len(fb) > 2))
 
 
 def eval_chunk(items):
@@ -274,54 +351,101 @@ def run_dep(ctx: Ctx) -> None:
     rng = ctx.rng
     items: T.List[T.Tuple[dict, T.List[dict]]] = []
     total = n_cells()
-    if ctx.tier == 'thorough':
-        picks = range(total)
-    else:   # quick; a changed pin (ctx.deep) widens the sample
-        picks = sorted(rng.sample(range(total), 40000 if ctx.deep else 15000))
-    for i in picks:
+    kws = [k for k in D.ident_keywords() if k != '__convertors__']
+    ctx.extra['identifier_keywords'] = kws
+    n_pick = 400000 if ctx.tier == 'thorough' else (40000 if ctx.deep else 15000)
+    for i in sorted(rng.sample(range(total), n_pick)):
         c = cell_at(i)
         if c is None:
             continue
         w, r = c
         items.append((w, [r, dict(r)]))       # every cell is looked up twice (repeat clause)
+    # every identifying keyword of dependency() (harvested from get_dep_identifier) x registration flavour x default_library
+    for kw in kws:
+        for opst in OPST:
+            for dl in DLIB:
+                for where in ('main', 'sub-found', 'sub-fallback'):
+                    for sysv in (None, '1.0'):
+                        fw = {'wrap_mode': 'default', 'fff': [], 'main_dl': rng.choice(DLIB) if where != 'main' else dl, 'ops': [],
+                              'cache': {}, 'system': {} if sysv is None else {'foo': sysv}, 'provides': {}, 'subprojects': {}}
+                        op = {'name': 'foo', 'dep': D2, 'static': opst, 'native': False}
+                        if where == 'main':
+                            fw['ops'].append(op)
+                        else:
+                            fw['subprojects']['foosub'] = {'state': 'found' if where == 'sub-found' else 'no', 'configure': 'ok',
+                                                           'dl': dl, 'ops': [op], 'vars': {}}
+                        vals = [None, True, False] if kw == 'static' else [D.ident_keywords()[kw]]
+                        for val in vals:
+                            r = {'names': ['foo'], 'wanted': [], 'required': False, 'allow_fallback': None,
+                                 'fallback': ['foosub'] if where == 'sub-fallback' else None,
+                                 'static': val if kw == 'static' else None, 'extra': {} if kw == 'static' else {kw: val}}
+                            items.append((fw, [r, dict(r), dict(r, static=None, extra={})]))
     n_struct = len(items)
     for _ in range(250000 if ctx.tier == 'thorough' else ctx.scale(12000, 25000)):
         items.append(rseq(rng))
     results = [x for part in pool_map(eval_chunk, items, 2000) for x in part]
-    ctx.count(sum(len(r[0].split('#')) for r in results))
+    ctx.count(sum(len(r[0]) for r in results))
     ctx.extra['dep_cells_total'] = total
     ctx.extra['dep_cells_run'] = n_struct
     ctx.extra['dep_sequences'] = len(items) - n_struct
-    for (w, reqs), (canon, hits, tags, _pol) in zip(items, results):
+    for (w, reqs), (res, hits, tags, _pol, _lines) in zip(items, results):
         for t in tags:
             ctx.tag('dep:' + t)
+        for r in reqs[:1]:
+            ctx.tag('dep:lookup-static-' + str(r.get('static')))
         for cls, msg, i in hits:
             case = {'kind': 'dep', 'world': w, 'requests': reqs, 'at': i}
             ctx.violation(vkey(cls, case), f'{cls}: {msg}', case)
     if ctx.model_available:
-        answers = ctx.driver('dep', [D.line_seq(w, reqs) for w, reqs in items])
-        for (w, reqs), (canon, _h, tags, _pol), ans in zip(items, results, answers):
-            if canon != ans:
-                ctx.disagreement({'kind': 'dep', 'world': w, 'requests': reqs, 'impl': canon, 'model': ans})
-            if tags and tags[0] != 'error:InvalidArguments':
+        flat = [(w, reqs, k, res[k], pol[k], lines[k]) for (w, reqs), (res, _h, tags, pol, lines) in zip(items, results)
+                for k in range(len(res))]
+        answers = ctx.driver('dep', [f[5] for f in flat])
+        pol_answers = ctx.driver('dep', ['pol ' + f[5][4:] for f in flat])
+        for (w, reqs, k, canon, pol, _line), ans, pans in zip(flat, answers, pol_answers):
+            if norm_sub_error(canon) != norm_sub_error(ans):
+                ctx.disagreement({'kind': 'dep', 'world': w, 'requests': reqs, 'at': k, 'impl': canon, 'model': ans})
+            if not canon.startswith('error:InvalidArguments'):
                 ctx.seen_nontrivial(('dep', ans))
-        # the Lean decision table `policy` against the Python decision table, and against the Lean `lookup`
-        # (the latter is theorem `lookup_eq_policy`; running it is only a test of the statement's reading)
-        pol_answers = ctx.driver('dep', ['pol ' + D.line_seq(w, reqs)[4:] for w, reqs in items])
-        for (w, reqs), (_c, _h, _t, pol), pans, ans in zip(items, results, pol_answers, answers):
-            lean_pol = '#'.join(x if not x.startswith('error') else 'error' for x in pans.split('#'))
+            # the Lean decision table `policy` against the Python decision table, and against the Lean `lookup`
+            # (the latter is theorem `lookup_eq_policy`; running it is only a test of the statement's reading)
+            lean_pol = pans if not pans.startswith('error') else 'error'
             if lean_pol != pol:
-                ctx.disagreement({'kind': 'policy-table', 'world': w, 'requests': reqs, 'python_policy': pol, 'lean_policy': lean_pol})
-            steps = []
-            for x in ans.split('#'):
-                o, _e, wd = x.split('~')
-                steps.append('error' if o.startswith('error') else o + '~' + wd)
-            if '#'.join(steps) != lean_pol:
-                ctx.disagreement({'kind': 'lean-lookup-vs-lean-policy', 'world': w, 'requests': reqs,
-                                  'lookup': '#'.join(steps), 'policy': lean_pol})
-        ctx.extra['policy_table_cells_compared'] = len(items)
+                ctx.disagreement({'kind': 'policy-table', 'world': w, 'requests': reqs, 'at': k, 'python_policy': pol, 'lean_policy': lean_pol})
+            o, _e, wd = ans.split('~')
+            lk = 'error' if o.startswith('error') else o + '~' + wd
+            if lk != lean_pol:
+                ctx.disagreement({'kind': 'lean-lookup-vs-lean-policy', 'world': w, 'requests': reqs, 'at': k,
+                                  'lookup': lk, 'policy': lean_pol})
+        ctx.extra['policy_table_cells_compared'] = len(flat)
+        run_registration(ctx, items)
     for it in items[::max(1, len(items) // 4)][:4]:
         ctx.sample({'kind': 'dep', 'world': it[0], 'requests': it[1]})
+
+
+def enc_ops(ops: T.List[dict], dl: str) -> str:
+    return ','.join(f"{D.enc(o['name']) if o['name'] else 'E'}:{D.enc_dep(o['dep'])}:{D.stag(o['static'])}:{int(o['native'])}:{dl}" for o in ops)
+
+
+def run_registration(ctx: Ctx, items) -> None:
+    """`MesonMain.override_dependency_method` against the Lean model `Register.overrideDependency` on the registration
+    sequences of the worlds (main project, then every configured subproject)"""
+    seen = {}
+    for w, _reqs in items:
+        seq = [(w['ops'], w['main_dl'])] + [(st['ops'], st['dl']) for st in w['subprojects'].values() if st['state'] == 'found']
+        line = 'reg ' + '/'.join(enc_ops(o, dl) for o, dl in seq if o)
+        if line not in seen and any(o for o, _ in seq):
+            seen[line] = w
+    lines = list(seen)
+    answers = ctx.driver('dep', lines)
+    for line, ans in zip(lines, answers):
+        w = seen[line]
+        s = D.Session(w)
+        real = 'error' if s.setup_errors else ','.join(sorted(
+            f"{k.split('|')[0]}|{D.enc(k.split('|')[1])}|{k.split('|')[2]}={D.enc(v[0][0])}" for k, v in s.state()['table'].items()))
+        ctx.count()
+        if real != ans:
+            ctx.disagreement({'kind': 'registration', 'world': w, 'impl': real, 'model': ans})
+    ctx.extra['registration_sequences_compared'] = len(lines)
 
 
 # ------------------------------------------------------------------------------------------ (b) generators
@@ -551,8 +675,8 @@ def witness_method_kwarg(ctx: Ctx) -> None:
     """`dependency('foo', method: 'pkg-config')` after `meson.override_dependency('foo', d)`: the override must win
     (dependency.yaml: "returned unconditionally"). Real holder, stubbed world, the `method` keyword passed through."""
     from mesonbuild.dependencies.base import DependencyMethods
-    w = {'wrap_mode': 'default', 'fff': [], 'overrides': {'foo': [['ov', True, '1.0'], True]}, 'cache': {}, 'system': {},
-         'provides': {}, 'subprojects': {}}
+    w = {'wrap_mode': 'default', 'fff': [], 'main_dl': 'shared', 'ops': [{'name': 'foo', 'dep': ['ov', True, '1.0'], 'static': None, 'native': False}],
+         'cache': {}, 'system': {}, 'provides': {}, 'subprojects': {}}
     s = D.Session(w)
     I = D._Impl
     saved = I.dependencies.find_external_dependency
@@ -571,7 +695,7 @@ def witness_method_kwarg(ctx: Ctx) -> None:
                       {'kind': 'witness', 'world': w, 'call': "dependency('foo', method: 'pkg-config', required: false)"})
     # write side: the result of a lookup with a method keyword is what later lookups of the name return,
     # and meson.override_dependency() afterwards sees the name as resolved
-    w2 = {'wrap_mode': 'default', 'fff': [], 'overrides': {}, 'cache': {}, 'system': {'foo': '1.0'}, 'provides': {}, 'subprojects': {}}
+    w2 = {'wrap_mode': 'default', 'fff': [], 'main_dl': 'shared', 'ops': [], 'cache': {}, 'system': {'foo': '1.0'}, 'provides': {}, 'subprojects': {}}
     s2 = D.Session(w2)
     I.dependencies.find_external_dependency = s2.find_external_dependency
     try:
@@ -580,11 +704,50 @@ def witness_method_kwarg(ctx: Ctx) -> None:
     finally:
         I.dependencies.find_external_dependency = saved
     ctx.count()
-    if d1.found() and s2._ident('foo') not in s2.build.dependency_overrides[s2.HOST]:
+    if d1.found() and I.dependencies.get_dep_identifier('foo', {'native': s2.HOST}) not in s2.build.dependency_overrides[s2.HOST]:
         ctx.violation('implicit-override-keyed-on-method',
                       "after dependency('foo', method: 'pkg-config') succeeded, 'foo' is not recorded as resolved for lookups and "
                       "override_dependency() without that keyword",
                       {'kind': 'witness', 'world': w2, 'call': "dependency('foo', method: 'pkg-config', required: false)"})
+
+
+def run_e2e_static(ctx: Ctx) -> None:
+    """real `meson setup`: a subproject configured through subproject() overrides `foo` without a `static:` keyword;
+    the main project's default_library is shared/static/both; the system also has `foo` 1.0. Every lookup whose
+    static flavour the override stands for must return the override (9.9, internal), the others the system's."""
+    for dl in DLIB:
+        root = common.scratch_dir('mverif-c10s-')
+        try:
+            os.makedirs(os.path.join(root, 'pc'))
+            os.makedirs(os.path.join(root, 'src', 'subprojects', 'prov'))
+            with open(os.path.join(root, 'pc', 'foo.pc'), 'w') as f:
+                f.write('Name: foo\nDescription: foo\nVersion: 1.0\nLibs:\nCflags:\n')
+            with open(os.path.join(root, 'src', 'meson.build'), 'w') as f:
+                f.write(f"project('top', default_options: ['default_library={dl}'])\nsubproject('prov')\n"
+                        "a = dependency('foo', method: 'pkg-config')\nb = dependency('foo', method: 'pkg-config', static: true)\n"
+                        "c = dependency('foo', method: 'pkg-config', static: false)\n"
+                        "message('VERS @0@ @1@ @2@'.format(a.version(), b.version(), c.version()))\n")
+            with open(os.path.join(root, 'src', 'subprojects', 'prov', 'meson.build'), 'w') as f:
+                f.write("project('prov', version: '9.9')\nmeson.override_dependency('foo', declare_dependency())\n")
+            env = dict(os.environ)
+            env.update({'PKG_CONFIG_LIBDIR': os.path.join(root, 'pc'), 'PKG_CONFIG_PATH': '', 'PYTHONPATH': common.REPO,
+                        'CMAKE': os.path.join(root, 'no-cmake-here')})
+            p = subprocess.run([sys.executable, os.path.join(common.REPO, 'meson.py'), 'setup', '--backend=none',
+                                os.path.join(root, 'b'), os.path.join(root, 'src')],
+                               env=env, stdout=subprocess.PIPE, stderr=subprocess.STDOUT, text=True, timeout=300)
+            got = [l.split('VERS ')[1].strip() for l in p.stdout.splitlines() if 'VERS ' in l]
+            exp = ' '.join(['9.9', '9.9' if dl in ('static', 'both') else '1.0', '9.9' if dl in ('shared', 'both') else '1.0'])
+            ctx.count()
+            ctx.tag('e2e:static-' + dl)
+            case = {'kind': 'e2e-static', 'default_library': dl}
+            if p.returncode != 0 or not got:
+                ctx.violation(vkey('e2e-static-error', case), f'meson setup failed: {p.stdout[-300:]}', case)
+            elif got[0] != exp:
+                ctx.violation(vkey('e2e-override-does-not-win', case),
+                              f'end-to-end, default_library={dl}: plain/static/shared lookups gave versions "{got[0]}", '
+                              f'the override (9.9) must win where it stands for the flavour: "{exp}"', case)
+        finally:
+            common.rmtree(root)
 
 
 # ------------------------------------------------------------------------------------------ entry points
@@ -593,7 +756,7 @@ def run(ctx: Ctx) -> None:
     ctx.rule = ('(a) every cell of the single-name cross product system{absent,1.0,2.0} x fallback{none,explicit,explicit+var,[],provide,'
                 'provide+var,explicit+provide} x subproject{unconfigured ok/failing, configured, disabled} x 9 subproject contents x '
                 '6 prior override/cache states x 5 wrap modes x 3 force_fallback_for x 2 constraints x required x allow_fallback, each looked up '
-                'twice (quick: 15000 sampled cells of 816480; thorough/pin change: all), plus random worlds with two names and sequences <= 3 incl. '
+                'twice (quick: 15000 sampled cells of the 22M-cell product incl. static: of override x default_library x static: of lookup; thorough/pin change: all), plus random worlds with two names and sequences <= 3 incl. '
                 'malformed arguments; (b) every corruption class {good, other valid archive, garbage, wrong top directory} x location '
                 '{packagefiles, cache, URL, fallback URL after failure, fallback URL after bad hash} x recorded hash {good, bogus, none} x '
                 '(no fault | one fault at each of 22 fault points (quick: 6 sampled) | nodownload), for source and patch, plus random cases with up to 8 faults. '
@@ -603,6 +766,8 @@ def run(ctx: Ctx) -> None:
     run_wrap(ctx)
     if ctx.tier == 'thorough':
         run_e2e(ctx)
+    if ctx.tier == 'thorough' or ctx.deep:
+        run_e2e_static(ctx)
     ctx.assumptions += TRUSTED
 
 
@@ -621,6 +786,19 @@ def search(ctx: Ctx, disagreements: T.List[dict]) -> None:
                         w2['wrap_mode'], w2['fff'] = wm, fff
                         rs = [dict(r, required=req) for r in reqs]
                         items.append((w2, (rs + rs)[:4]))
+        if d.get('kind') in ('dep', 'registration', 'policy-table'):
+            w, reqs = d['world'], d.get('requests') or [{'names': ['foo'], 'wanted': [], 'required': False, 'allow_fallback': None,
+                                                       'fallback': None, 'static': None, 'extra': {}}]
+            names = sorted({o['name'] for o in w['ops']} | {o['name'] for st in w['subprojects'].values() for o in st['ops']})
+            for dl in DLIB:
+                for rst in RST:
+                    w2 = json.loads(json.dumps(w))
+                    w2['main_dl'] = dl
+                    for st in w2['subprojects'].values():
+                        st['dl'] = dl
+                    rs = [dict(r, static=rst) for r in reqs]
+                    rs += [dict(rs[0], names=[n], static=rst) for n in names if n]
+                    items.append((w2, rs[:6]))
         elif d.get('kind') == 'wrap':
             c = d['case']
             wraps.append(c)
@@ -633,7 +811,7 @@ def search(ctx: Ctx, disagreements: T.List[dict]) -> None:
             wraps.append(c3)
     for _ in range(20000 if not disagreements else 5000):
         items.append(rseq(rng))
-    for (w, reqs), (_c, hits, _t, _p) in zip(items, [x for part in pool_map(eval_chunk, items, 1000) for x in part]):
+    for (w, reqs), (_c, hits, _t, _p, _l) in zip(items, [x for part in pool_map(eval_chunk, items, 1000) for x in part]):
         for cls, msg, i in hits:
             case = {'kind': 'dep', 'world': w, 'requests': reqs, 'at': i}
             ctx.violation(vkey(cls, case), f'{cls}: {msg}', case)
@@ -648,11 +826,11 @@ def replay(ctx: Ctx, rep: dict) -> None:
     case = rep.get('case') or (rep.get('correspondence_disagreements') or [{}])[0]
     print('replay', rep.get('what', ''), json.dumps(case)[:2000])
     if case.get('kind') == 'dep':
-        canon, hits, tags, _pol = eval_seq((case['world'], case['requests']))
+        canon, hits, tags, _pol, lines = eval_seq((case['world'], case['requests']))
         print('impl  :', canon)
         print('oracle:', hits or 'ok')
         if ctx.model_available:
-            print('model :', ctx.driver('dep', [D.line_seq(case['world'], case['requests'])])[0])
+            print('model :', ctx.driver('dep', lines))
         for cls, msg, i in hits:
             ctx.violation(vkey(cls, {'kind': 'dep', 'world': case['world'], 'requests': case['requests'], 'at': i}), f'{cls}: {msg}', case)
     elif case.get('kind') == 'wrap':
